@@ -497,7 +497,7 @@ def task_neg(gname):
         F = model.embed(A)
         c1 = Cell(g.point(F))
         it.run(item, [Ref(c1)])
-        need(it.prim_count["neg"] >= 1, "%s.set_neg executed no field negation" % gname)
+        need(it.prim_count["neg"] + it.prim_count["add"] >= 1, "%s.set_neg executed no field operation" % gname)
         out = g.fields(c1.val)
         acc = Acc("%s.set_neg:%s" % (gname, case), fn_names(it), "set_neg(P) represents -P; case " + case,
                   dict(group=gname, func="set_neg", case=case, n=0))
@@ -508,9 +508,17 @@ def task_neg(gname):
         else:
             B = Affine(model.neg(A), A.hyps, A.nz, A.z)
             E = model.embed(B)
-            # exact: the representation of -P with the same scaling
-            for lab, o_, e_ in zip(model.coords, out, E):
-                acc.zero(lab, o_ - e_, model, [])
+            if isinstance(model, JacobiQuartic):
+                # group elements are classes (e,u) ~ (-e,-u): any representative of -P
+                for lab, t in model.same_element(out, E):
+                    acc.zero(lab, t, model, A.hyps)
+                acc.zero("T*Z=U^2", out[3] * out[2] - out[1] * out[1], model, A.hyps)
+                acc.zero("on-curve", model.oncurve(out), model, A.hyps)
+                acc.nonvanishing("Z", out[2], model, A.hyps, A.nz)
+            else:
+                # exact: the representation of -P with the same scaling
+                for lab, o_, e_ in zip(model.coords, out, E):
+                    acc.zero(lab, o_ - e_, model, [])
         obs.append(acc.ob())
     return obs, {}
 
@@ -1027,13 +1035,16 @@ def native_requests(g, hint, rng, count=6):
                         E = m.c_add(E, P)
                 reqs.append(((g.name, func, nn, F1), E))
         elif func == "operators":
-            for op, E in (("op_add", m.c_add(P, Q)), ("op_sub", m.c_add(P, m.c_neg(Q))),
-                          ("op_add_ref", m.c_add(P, Q)), ("op_sub_ref", m.c_add(P, m.c_neg(Q))),
-                          ("op_add_assign", m.c_add(P, Q)), ("op_sub_assign", m.c_add(P, m.c_neg(Q))),
-                          ("op_neg", m.c_neg(P))):
-                reqs.append(((g.name, op, 0, F1 + (m.c_embed(Q, z2) if op != "op_neg" else [])), E))
+            S_, D_ = m.c_add(P, Q), m.c_add(P, m.c_neg(Q))
+            FQ = m.c_embed(Q, z2)
+            for v in ("vv", "vr", "rv", "rr", "assign_v", "assign_r"):
+                reqs.append(((g.name, "op_add_" + v, 0, F1 + FQ), S_))
+                reqs.append(((g.name, "op_sub_" + v, 0, F1 + FQ), D_))
+            for v in ("v", "r"):
+                reqs.append(((g.name, "op_neg_" + v, 0, F1), m.c_neg(P)))
             E5 = m.c_add(m.c_add(m.c_add(P, P), m.c_add(P, P)), P)
-            reqs.append(((g.name, "op_mul", 5, F1), E5))
+            for v in ("vn", "rn", "nv", "nr", "assign"):
+                reqs.append(((g.name, "op_mul_" + v, 5, F1), E5))
     return reqs
 
 
@@ -1168,6 +1179,7 @@ def run(tier, only=None):
     rng = random.Random(SEED or 20261002)
     native = {"checked": 0, "failed": 0, "error": rp.error}
     gobjs = {}
+    pending = []
 
     def gobj(name):
         if name not in gobjs:
@@ -1197,7 +1209,7 @@ def run(tier, only=None):
             if mism is not None:
                 native["failed"] += 1
                 if all(x.verdict == "discharged" for x in same_key):
-                    merr = "native disagreement on a discharged obligation %s: %r" % (o.name, mism)
+                    pending.append((o.name, h["group"], mism))
                 for x in same_key:
                     if x.verdict != "discharged":
                         x.fail(mism, x.solver, x.seconds, x.queries)
@@ -1205,6 +1217,15 @@ def run(tier, only=None):
                 o.reason += " | native replay unavailable: %s" % err[:200]
             elif o.verdict != "discharged" and getattr(o, "candidate", False):
                 o.reason += " | native replay of %d concrete instances agrees with the oracle" % n
+        # a native disagreement on a discharged obligation is explained when the
+        # obligation is relative to functions of the same curve whose own
+        # obligations are violated (operators / schedules / wrappers); otherwise
+        # the machinery contradicts itself
+        for oname, gname, mism in pending:
+            mdl = GROUPS[gname]["model"]
+            if not any(x.verdict == "violated" and getattr(x, "hint", None) and
+                       GROUPS[x.hint["group"]]["model"] == mdl for x in obs):
+                merr = "native disagreement on a discharged obligation %s: %r" % (oname, mism)
     else:
         for o in obs:
             if o.verdict != "discharged":
